@@ -33,7 +33,11 @@ META = {
             "both CLOSEs, silence on a released channel) evaluated (1) after every transition of all two-sided "
             "operation/delivery histories up to depth 5/6, (2) on every schedule with <=2/3 preemptions (source-line "
             "granularity in the channel's send/close paths) of writer || closer (|| closer || wire) threads, and (3) "
-            "on every schedule within delay bound 1/2 of the same race on two live transports.",
+            "on every schedule within delay bound 1/2 of the same race on two live transports, and (4) [life-cycle "
+            "events crossing re-exchanges] on every crossing order of the two wire directions when the peer's "
+            "EOF / CLOSE / data+EOF / data+CLOSE / EOF+CLOSE is in flight while this side starts a key re-exchange "
+            "(either role; optionally a local thread closing / shutting down / sending at the same time, delay "
+            "bound 1), followed by a second complete exchange on the settled connection.",
     "note": "ChannelPair for parts 1-2 (real Channel + Transport._send_user_message, harness dispatch); atomicity = "
             "source line in the traced functions; part 3 delay-bounded",
     "design_ref": "4/C22",
@@ -438,6 +442,63 @@ def make_live_body(scn):
     return body
 
 
+# ------------------------------------------------------------------ part 4: life-cycle events crossing re-exchanges
+def judge_rekey(scn, obs):
+    o = TraceOracle()
+    problems = []
+    per_side = {}
+    for side, raws, cid in (("A", obs["raw_i"], obs["chan_p"]), ("B", obs["raw_p"], obs["chan_i"])):
+        # a side's messages carry the *recipient's* channel number
+        mine = [raw for (t, raw) in raws
+                if t in DATA_TYPES + (MSG_CHANNEL_EOF, MSG_CHANNEL_CLOSE) and Message(raw[1:]).get_int() == cid]
+        per_side[side] = tuple(r[0] for r in mine)
+        problems += o.feed(side, mine, "handler" if side == "A" and not scn[2] else str(scn[2] or scn[1]))
+    if o.close["B"] and not o.close["A"] and all(obs["active"]):
+        problems.append(("peer-close-not-answered", {"side": "A"}))
+    if o.close["A"] and o.close["B"] and all(obs["active"]) and not all(obs["released"]):
+        problems.append(("not-released-after-both-closes", {"side": "?"}))
+    return problems, per_side
+
+
+def rekey_item(item, acc):
+    """A peer's EOF / CLOSE in flight while this side starts a key re-exchange (optionally with a local user
+    thread closing / shutting down / sending at the same time): every crossing order of the two wire directions
+    (C11's scenario body), then a second complete exchange on the settled connection.  The wire traces of both
+    sides for that channel go through the same TraceOracle: answers parked during an exchange must come out
+    exactly once."""
+    from props import c11
+    tier, scn = item
+    body = c11.make_body(scn, second=True, want_raw=True)
+    traces = set()
+
+    def on_exec(ex):
+        acc.ev()
+        if ex.outcome != "ok":
+            acc.violation("rekey:harness-outcome:%s:%s" % (ex.outcome, type(ex.error).__name__),
+                          {"scn": scn, "err": repr(ex.error)[:300]}, {"part": "rekey", "scn": scn, "choices": ex.choices})
+            return
+        obs = ex.value
+        problems, per_side = judge_rekey(scn, obs)
+        trace = (per_side["A"], per_side["B"], obs["order"])
+        if trace not in traces:
+            traces.add(trace)
+            acc.nt(("rekey", scn, trace))
+        for clause, d in problems:
+            acc.violation(make_key(clause, d, "crossing-a-re-exchange"),
+                          {"scn": scn, "why": d, "wire_A": list(per_side["A"]), "wire_B": list(per_side["B"]),
+                           "order": list(obs["order"]), "choices": ex.choices},
+                          {"part": "rekey", "scn": scn, "choices": ex.choices})
+    res = explore.explore(body, 1 if scn[2] else 0, "delay", cap=4000, on_exec=on_exec,
+                          sched_kw={"horizon": S.EPOCH + 400, "step_budget": 3_000_000})
+    acc.count("rekey_crossing_orders", res.executions)
+    acc.count("rekey_scenarios")
+    if res.capped:
+        acc.note("rekey cap 4000 hit %r" % (scn,))
+    if len(acc.samples) < 8 and len(traces) > 1:
+        acc.sample({"part": "rekey", "initiator": scn[0], "peer_in_flight": list(scn[1]), "user_thread": scn[2],
+                    "crossing_orders": res.executions, "distinct_traces": len(traces)})
+
+
 def live_item(item, acc):
     tier, scn, bound = item
     body = make_live_body(scn)
@@ -513,11 +574,20 @@ def main(tier):
         for c in ["close", "shutdown_write"] + ([] if quick else ["shutdown2"]):
             items.append(("live", tier, (w, c), 1 if quick else 2))
 
+    for ini in ("c", "s"):
+        for msgs in ((), ("eof",), ("close",), ("data", "eof"), ("data", "close"), ("eof", "close")):
+            for uop in (False, "close", "shutdown_write") + (() if quick else ("send",)):
+                if not msgs and not uop:
+                    continue
+                if "close" in msgs and uop == "close" and quick:
+                    continue
+                items.append(("rekey", tier, (ini, msgs, uop, False)))
+
     # long items first (better balance on the worker pool)
-    items.sort(key=lambda it: {"live": 0, "race": 1, "bfs": 2}[it[0]])
+    items.sort(key=lambda it: {"live": 0, "rekey": 0, "race": 1, "bfs": 2}[it[0]])
 
     def run(item, acc):
-        {"bfs": bfs_item, "race": race_item, "live": live_item}[item[0]](item[1:], acc)
+        {"bfs": bfs_item, "race": race_item, "live": live_item, "rekey": rekey_item}[item[0]](item[1:], acc)
     ck.extra["bfs_depth"] = depth
     ck.merge(core.pmap(items, run))
     ck.exhaustive = False
@@ -536,6 +606,18 @@ def replay(rec):
         print("trace B:", [chanpair.parse(x)[2][0] for x in w.cp.tb.packetizer.sent])
         return 1 if w.problems else 0
     scn = r["scn"]
+    if r["part"] == "rekey":
+        from props import c11
+        scn = (scn[0], tuple(scn[1]), scn[2], scn[3])
+        ex = explore.replay(c11.make_body(scn, second=True, want_raw=True), r["choices"], "delay",
+                            {"horizon": S.EPOCH + 400, "step_budget": 3_000_000})
+        print(ex.outcome, ex.error)
+        if ex.outcome != "ok":
+            return 1
+        problems, per_side = judge_rekey(scn, ex.value)
+        print("wire A:", per_side["A"], "wire B:", per_side["B"], "order:", ex.value["order"])
+        print("problems:", problems)
+        return 1 if problems else 0
     if r["part"] == "race":
         scn = (scn[0], tuple(scn[1]), scn[2])
         lines = r.get("lines", True)
